@@ -109,6 +109,11 @@ Written(T, blk) ==
       w1 == IF ni # 0 /\ Exported(T.fields[ni].go) /\ T.fields[ni].kind = "string" THEN [w0 EXCEPT ![ni].w = TRUE] ELSE w0
   IN MarkW(T, w1, blk.ents, 1)
 
+\* where the outcome is left open ("any": an embedded struct is among the fields) one thing still holds if the copy succeeds: a
+\* value entry whose key is the 'bcl' tag of a direct field is in that field (tags take precedence over every name rule).
+\* TagStored(T, blk) = the (field index, value) pairs this fixes.
+TagStored(T, blk) == { <<LastTagged(T, blk.ents[i].k), blk.ents[i].v>> : i \in { j \in 1..Len(blk.ents) : blk.ents[j].kind = "val" /\ AnyTagged(T) /\ LastTagged(T, blk.ents[j].k) > 0 } }
+
 \* ---- design-level lemmas checked by TLC in MC_Bind
 \* L1: the outcome does not depend on the order of the entries (C16 at design level)
 Permute2(blk) == IF Len(blk.ents) = 2 THEN [blk EXCEPT !.ents = <<blk.ents[2], blk.ents[1]>>] ELSE blk
